@@ -486,33 +486,56 @@ func checkDialGate(p *core.Program, r *core.Report, a *hubAnchors, R1 string, ga
 		}
 		// the dialled SKI service and the checked one are the same value is covered by C02.R1
 	}
-	// client-role construction only in the dial function
+	// client-role construction only in the dial function. The construction may sit in a helper shared by the
+	// inbound and the outbound path that receives the role (or a flag selecting it): it is then judged once
+	// per call chain, with the helper's parameters bound to that chain's arguments.
 	roleClient := p.Const("ship", "ShipRoleClient")
-	for _, s := range core.Sites(p.RepoFuncs(), func(in ssa.Instruction) bool {
+	ensureCallSites(p)
+	hubLocalFn := func(f *ssa.Function) bool { return p.PkgShort(f) == "hub" && f.Blocks != nil }
+	isNCH := func(in ssa.Instruction) bool {
 		c := core.Common(in)
 		return c != nil && c.StaticCallee() == a.nch
-	}) {
-		c := core.Common(s.In)
-		k := core.ConstOf(c.Args[2])
-		if k == nil || roleClient == nil {
-			r.Fail(R1, "role of NewConnectionHandler in "+p.FnName(s.Fn), p.Pos(s.In.Pos()), "connection role is not a constant")
-			continue
-		}
-		if constant.Compare(k, token.EQL, roleClient.Val()) {
-			key := "client-role construction in " + p.FnName(s.Fn)
-			isDial := false
-			for _, d := range a.dialFns {
-				if s.Fn == d {
-					isDial = true
+	}
+	for _, s := range core.Sites(p.RepoFuncs(), isNCH) {
+		// the chains under which this construction runs: the site itself, or - for a helper - one per caller
+		var ctxs []core.CtxSite
+		if k := core.ConstOf(core.Common(s.In).Args[2]); k != nil || len(gCallSites[s.Fn]) == 0 {
+			ctxs = []core.CtxSite{{In: s.In}}
+		} else {
+			for _, cs := range gCallSites[s.Fn] {
+				if _, isCall := cs.(*ssa.Call); isCall {
+					ctxs = append(ctxs, core.CtxSite{In: s.In, Chain: []ssa.Instruction{cs}})
+				} else {
+					ctxs = append(ctxs, core.CtxSite{In: s.In})
 				}
 			}
-			if isDial {
-				r.OK(R1, key, p.Pos(s.In.Pos()), "only the dial function creates client-role (locally trusted) connections")
-			} else {
-				r.Fail(R1, key, p.Pos(s.In.Pos()), "a client-role connection (trusted by role) is constructed outside the gated dial function")
+		}
+		for _, cx := range ctxs {
+			undo := cx.Bind()
+			k := core.ConstUnder(core.Common(s.In).Args[2], 6)
+			undo()
+			root := cx.Root()
+			if k == nil || roleClient == nil {
+				r.Fail(R1, "role of NewConnectionHandler in "+p.FnName(s.Fn), p.Pos(s.In.Pos()), "connection role is not a constant")
+				continue
+			}
+			if constant.Compare(k, token.EQL, roleClient.Val()) {
+				key := "client-role construction in " + p.FnName(root)
+				isDial := false
+				for _, d := range a.dialFns {
+					if root == d {
+						isDial = true
+					}
+				}
+				if isDial {
+					r.OK(R1, key, p.Pos(s.In.Pos()), "only the dial function creates client-role (locally trusted) connections")
+				} else {
+					r.Fail(R1, key, p.Pos(s.In.Pos()), "a client-role connection (trusted by role) is constructed outside the gated dial function")
+				}
 			}
 		}
 	}
+	_ = hubLocalFn
 	// report -> attempt coordinator guarded by not-connected and paired-or-queued
 	rep := p.Method("hub", "Hub", "ReportMdnsEntries")
 	if rep == nil {
@@ -527,7 +550,26 @@ func checkDialGate(p *core.Program, r *core.Report, a *hubAnchors, R1 string, ga
 			}
 			n++
 			key := "mDNS report starts attempt via " + p.FnName(c.StaticCallee())
-			if core.Guarded(in, gate) {
+			// the per-entry logic may live in a helper that applies the gate itself
+			var gatedInside func(fn *ssa.Function, depth int) bool
+			gatedInside = func(fn *ssa.Function, depth int) bool {
+				if depth == 0 || fn.Blocks == nil || p.PkgShort(fn) != "hub" {
+					return false
+				}
+				ok, any := true, false
+				core.EachInstr(fn, func(y ssa.Instruction) {
+					cy := core.Common(y)
+					if cy == nil || cy.StaticCallee() == nil || !p.InRepo(cy.StaticCallee()) || !mayDial.Fn(cy.StaticCallee()) {
+						return
+					}
+					any = true
+					if !core.Guarded(y, gate) && !gatedInside(cy.StaticCallee(), depth-1) {
+						ok = false
+					}
+				})
+				return ok && any
+			}
+			if core.Guarded(in, gate) || gatedInside(c.StaticCallee(), 2) {
 				r.OK(R1, key, p.Pos(in.Pos()), "only for paired-or-queued SKIs")
 			} else {
 				r.Fail(R1, key, p.Pos(in.Pos()), "an mDNS report starts a connection attempt without the paired-or-queued check")
@@ -549,7 +591,7 @@ func checkDialGate(p *core.Program, r *core.Report, a *hubAnchors, R1 string, ga
 		return k == nil || (cq != nil && constant.Compare(k, token.EQL, cq.Val()))
 	}) {
 		key := "SetState(Queued) in " + p.FnName(s.Fn)
-		if s.Fn == reg {
+		if reg != nil && withinOp(p, s.Fn, reg, 3) {
 			r.OK(R1, key, p.Pos(s.In.Pos()), "user registration")
 		} else {
 			r.Fail(R1, key, p.Pos(s.In.Pos()), "a service is queued for pairing (dial allowed) outside RegisterRemoteSKI")
@@ -570,7 +612,8 @@ func checkRegisterTrust(p *core.Program, r *core.Report, rule string) {
 		return c != nil && core.CallsMethodNamed(in, apiPath, "ServiceDetails", "SetTrusted") && len(c.Args) == 2 && isBoolConst(c.Args[1], true)
 	}
 	key := "RegisterRemoteSKI records trust on every path"
-	if bad := core.MustPass(reg, nil, setsTrust, nil); bad != nil {
+	must := core.NewMust(p, 3, setsTrust)
+	if bad := core.MustPass(reg, nil, must.Instr, nil); bad != nil {
 		r.Fail(rule, key, p.Pos(bad.Pos()), "a path of RegisterRemoteSKI returns without SetTrusted(true): a registration that arrives while a connection for the SKI exists but is not (yet / any more) waiting for approval is lost - the peer is never trusted, never dialled, and its retries are denied")
 	} else {
 		r.OK(rule, key, p.Pos(reg.Pos()), "SetTrusted(true) on all paths")
